@@ -53,4 +53,16 @@ def decryptW (c : Cipher) (v : UInt32 × UInt32) : UInt32 × UInt32 :=
 def encrypt (c : Cipher) (src : Bytes) : Bytes := join8 (encryptW c (split8 src))
 def decrypt (c : Cipher) (src : Bytes) : Bytes := join8 (decryptW c (split8 src))
 
+/-! ### reference: TEA as published (Wheeler & Needham 1994) — cycle i = 1 … n uses sum = i·delta;
+    one cycle is two Feistel rounds, so a cipher with `rounds` rounds runs rounds/2 cycles -/
+
+def refEnc (k : Key) : Nat → UInt32 × UInt32 → UInt32 × UInt32
+  | 0, v => v
+  | n+1, v => encStep k (delta * UInt32.ofNat (n+1)) (refEnc k n v)
+
+/-- decryption undoes cycle n, then n-1, … -/
+def refDec (k : Key) : Nat → UInt32 × UInt32 → UInt32 × UInt32
+  | 0, v => v
+  | n+1, v => refDec k n (decStep k (delta * UInt32.ofNat (n+1)) v)
+
 end XC.C12.Tea
